@@ -619,11 +619,25 @@ Definition label_valid (l : string) : bool :=
   negb (String.eqb l "") && negb (starts_with "-" l) && negb (starts_with "-" (rev_string l)).
 Definition valid_dns (s : string) : bool := forallb label_valid (split dot s).
 
+(** the exact round-trip condition (P_C32.uninline_inline_iff): after a '.', the next
+    character is neither '.' nor '-'; every valid DNS name satisfies it *)
+Fixpoint rt_ok (s : string) : bool :=
+  match s with
+  | EmptyString => true
+  | String c r =>
+      (if Ascii.eqb c dot
+       then match r with
+            | String d _ => negb (Ascii.eqb d dash) && negb (Ascii.eqb d dot)
+            | EmptyString => true
+            end
+       else true) && rt_ok r
+  end.
+
 Definition spec_str (s : string) (il : option string) (un_inl : string) : bool :=
   match il with
   | Some l =>
       Nat.leb (String.length l) max_label && negb (contains dot l) &&
-      (if valid_dns s then String.eqb un_inl s else true)
+      (if rt_ok s then String.eqb un_inl s else true)
   | None => Nat.ltb max_label (String.length s + count dash s)
   end.
 
